@@ -223,6 +223,13 @@ func c12Body() func(h []dsim.Rec) {
 	e.peerNoRead = noRead
 	if noRead {
 		count("fault:peer-not-reading")
+		// ... and the line then fails on its read side while the write is still stuck
+		readFaultAfter := 2 + dsim.Choose(6)
+		e.w.OnNewConn = func(c *world.Conn) {
+			if c.Kind == "serial" {
+				c.SetFaults(world.Faults{ReadErrAt: c.ReadCount() + readFaultAfter, ReadErr: errInjectedRead})
+			}
+		}
 	}
 	e.peerAPHeartbeats = cfg.srEnable && cfg.dialectKind == 0
 	d := &driverSet{e: e}
